@@ -757,6 +757,15 @@ def gen_fn(repo, d, body, report):
             edits.add(toks[a].start, toks[a + 1].start, "", "R12", f"mut parameter {nm} -> shadowing let")
             edits.add(bo.end, bo.end, f" let mut {nm} = {nm}; ", "R12", "")
             stats["R12"] = stats.get("R12", 0) + 1
+        elif toks[a].text == "mut" and toks[a + 1].text == "self" and b == a + 2:
+            # R12b: `mut self` receiver -> `self` + `let mut __self = self;`, every `self` in the body renamed (Verus does not
+            # accept `mut self`; the contract keeps speaking about `self`, the value the function was entered with)
+            edits.add(toks[a].start, toks[a + 1].start, "", "R12", "mut self -> let mut __self = self")
+            edits.add(bo.end, bo.end, " let mut __self = self; ", "R12", "")
+            for q in range(f["body_open"] + 1, f["body_close"]):
+                if toks[q].kind == "ident" and toks[q].text == "self":
+                    edits.add(toks[q].start, toks[q].end, "__self", "R12", "")
+            stats["R12"] = stats.get("R12", 0) + 1
     # body
     body_rewrites(src, f["body_open"] + 1, f["body_close"], edits, subst, stats, opts)
     rewrite_loop_values(src, f["body_open"] + 1, f["body_close"], edits, stats, {k: v for k, v in d.items() if k.startswith("__brk")})
